@@ -4,7 +4,7 @@
    anchored in the scenario and the random start hosts are hosts of the scenario. *)
 From stdpp Require Import gmap.
 From Coq Require Import ZArith NArith.
-From NSG Require Import Model.Coord Proofs.CoordViews Model.World Model.Load Model.Game Proofs.WorldStep Proofs.WorldInv Proofs.InitViewFacts
+From NSG Require Import Model.Coord Proofs.CoordBase Proofs.CoordDirect Proofs.CoordViews Model.World Model.Load Model.Game Proofs.WorldStep Proofs.WorldInv Proofs.InitViewFacts
   .
 
 (* what must hold of a start position for the initial view to be well formed and anchored *)
@@ -171,3 +171,45 @@ Section GameReset.
     unfold g_wreset. cbn [fst]. rewrite (reset_static w0 _ Hs). apply reset_pristine, Hp.
   Qed.
 End GameReset.
+
+(* C02 for the whole game: a game action of a playing agent whose preconditions do not hold leaves the world exactly as
+   it is, and the view stored for (and reported to) the agent is the view it had; only the step counter, the status rule
+   and the step reward see the action *)
+Section GameNoop.
+  Variable sp : role -> start_pos.
+  Variable goal : role -> view -> bool.
+  Variable detect : list gaction -> gaction -> bool.
+  Variable cfg : config.
+
+  Notation gstate := (@state view gworld gaction).
+
+  Theorem game_noop (s : gstate) id c act a :
+    alookup c (agents s) = Some a -> a_ended a = false -> pre (fst (Coord.world s)) (a_view a) act = false ->
+    let s' := @h_start view gworld gaction g_wstep (g_winit sp) goal detect cfg s id c (MGame act true) in
+    Coord.world s' = Coord.world s /\
+    (forall a', alookup c (agents s') = Some a' -> a_view a' = a_view a) /\
+    (forall k, k <> c -> alookup k (agents s') = alookup k (agents s)).
+  Proof.
+    intros Ha He Hp. cbv zeta.
+    assert (Ew : g_wstep (Coord.world s) (a_view a) act = (Coord.world s, a_view a)).
+    { unfold g_wstep. rewrite (step_noop _ _ _ Hp). destruct (Coord.world s). reflexivity. }
+    rewrite (game_step_eq g_wstep (g_winit sp) goal detect cfg s id c act a (Coord.world s) (a_view a) Ha He Ew). cbv zeta.
+    set (a2 := stepped_agent goal detect cfg s c a act (a_view a)).
+    assert (Ev : a_view a2 = a_view a) by reflexivity. clearbody a2.
+    set (ags := aupdate c (fun _ => a2) (agents s)).
+    assert (Hl : alookup c ags = Some a2) by (unfold ags; rewrite alookup_aupdate_eq, Ha; reflexivity).
+    assert (Hgoal : forall s2 : gstate, Coord.world s2 = Coord.world s -> agents s2 = ags -> forall b : bool,
+              let r := if b then park s2 id (PRewards false act (a_view a)) else @game_finish view gworld gaction s2 id c act (a_view a) in
+              Coord.world r = Coord.world s /\ (forall a', alookup c (agents r) = Some a' -> a_view a' = a_view a) /\
+              (forall k, k <> c -> alookup k (agents r) = alookup k (agents s))).
+    { intros s2 E1 E2 b. cbv zeta. destruct b.
+      - split; [exact E1|]. split.
+        + intros a' H. simpl in H. rewrite E2, Hl in H. injection H as <-. exact Ev.
+        + intros k Hk. simpl. rewrite E2. unfold ags. apply alookup_aupdate_ne. congruence.
+      - unfold game_finish. rewrite E2, Hl. simpl. split; [exact E1|]. split.
+        + intros a' H. rewrite ?E2 in H. unfold ags in H. rewrite aupdate_aupdate, alookup_aupdate_eq, Ha in H. simpl in H.
+          injection H as <-. exact Ev.
+        + intros k Hk. rewrite ?E2. unfold ags. rewrite aupdate_aupdate. apply alookup_aupdate_ne. congruence. }
+    destruct (all_ended ags); apply Hgoal; reflexivity.
+  Qed.
+End GameNoop.
